@@ -413,23 +413,85 @@ Definition fq (q : Q) : float :=
   | _ => of_Q Fops q
   end.
 
-Definition f_state_out (st : kstate Fops) : list (Z * Z) * list (list (Z * Z)) :=
-  (map f2zz (mean st), map (map f2zz) (cov st)).
+(* The trace of a history, printed sparsely: the mean after every step (step 0 = after initiate, step k =
+   after the k-th operation); the covariance and the distance of a probe measurement only after the steps
+   listed in [covsteps] (ascending; [probes] is aligned with it). *)
+Section Out.
+  Variable Ops : NumOps.
+  Variable A : Type.
+  Variable out : T Ops -> A.
+  Variable dist : kfilter Ops -> kstate Ops -> vec Ops -> list (T Ops).
 
-Definition q_state_out (st : kstate Qops) : list Q * list (list Q) := (mean st, cov st).
+  Definition st_out (F : kfilter Ops) (st : kstate Ops) (full : bool) (probe : vec Ops)
+    : list A * list (list A) * list A :=
+    (map out (mean st),
+     if full then map (map out) (cov st) else [],
+     if full then map out (dist F st probe) else []).
 
-(* The trace of a history, printed sparsely: the mean after every step, the covariance only after the steps
-   whose index is listed in [covsteps] (ascending), plus the distance of [probe] from every listed state. *)
-Fixpoint f_trace_out (F : kfilter Fops) (st : kstate Fops) (ops : list (kop Fops)) (k : nat) (covsteps : list nat)
-  : list (list (Z * Z) * list (list (Z * Z))) :=
-  match ops with
-  | [] => []
-  | op :: r =>
-      let st' := g_step Fops F st op in
-      match covsteps with
-      | c :: cr => if Nat.eqb c k
-                   then (map f2zz (mean st'), map (map f2zz) (cov st')) :: f_trace_out F st' r (S k) cr
-                   else (map f2zz (mean st'), []) :: f_trace_out F st' r (S k) covsteps
-      | [] => (map f2zz (mean st'), []) :: f_trace_out F st' r (S k) []
-      end
-  end.
+  Fixpoint trace_out (F : kfilter Ops) (st : kstate Ops) (ops : list (kop Ops)) (k : nat)
+           (covsteps : list nat) (probes : list (vec Ops)) : list (list A * list (list A) * list A) :=
+    match ops with
+    | [] => []
+    | op :: r =>
+        let st' := g_step Ops F st op in
+        match covsteps, probes with
+        | c :: cr, p :: pr =>
+            if Nat.eqb c k then st_out F st' true p :: trace_out F st' r (S k) cr pr
+            else st_out F st' false [] :: trace_out F st' r (S k) covsteps probes
+        | _, _ => st_out F st' false [] :: trace_out F st' r (S k) [] []
+        end
+    end.
+
+  Definition case_out (F : kfilter Ops) (z0 : vec Ops) (ops : list (kop Ops))
+             (covsteps : list nat) (probes : list (vec Ops)) : list (list A * list (list A) * list A) :=
+    let st0 := g_initiate Ops F z0 in
+    match covsteps, probes with
+    | O :: cr, p :: pr => st_out F st0 true p :: trace_out F st0 ops 1 cr pr
+    | _, _ => st_out F st0 false [] :: trace_out F st0 ops 1 covsteps probes
+    end.
+
+  Definition ops_of (conv : Q -> T Ops) (l : list (option (list Q))) : list (kop Ops) :=
+    map (fun o => match o with None => @Predict Ops | Some z => @Update Ops (map conv z) end) l.
+End Out.
+
+(* binary64 run: distances = [Cholesky + forward substitution (code shaped); sum y_i^2 / S_ii] *)
+Definition f_case (F : kfilter Fops) (z0 : list Q) (ops : list (option (list Q)))
+           (covsteps : list nat) (probes : list (list Q)) :=
+  case_out Fops (Z * Z) f2zz
+           (fun F st p => [g_distance Fops F PrimFloat.sqrt st p; g_distance_diag Fops F st p])
+           F (map fq z0) (ops_of Fops fq ops) covsteps (map (map fq) probes).
+
+(* exact rational run; numbers are printed as (numerator, denominator) *)
+Definition qzz (q : Q) : Z * Z := (Qnum q, Zpos (Qden q)).
+Definition q_case (F : kfilter Qops) (z0 : list Q) (ops : list (option (list Q)))
+           (covsteps : list nat) (probes : list (list Q)) :=
+  case_out Qops (Z * Z) qzz (fun F st p => [g_distance_diag Qops F st p])
+           F z0 (ops_of Qops (fun q => q) ops) covsteps probes.
+
+(* the matrix model and the scalar model agree on this history (exact rationals; proved in general in
+   Proofs/KalmanProofs.v, evaluated here on the very cases of the correspondence) *)
+Definition coord_eqb (x y : coord Qops) : bool :=
+  Qeq_bool (c_m x) (c_m y) && Qeq_bool (c_v x) (c_v y) && Qeq_bool (c_a x) (c_a y)
+  && Qeq_bool (c_b x) (c_b y) && Qeq_bool (c_c x) (c_c y).
+Definition q_scalar_agrees (F : kfilter Qops) (z0 : list Q) (ops : list (option (list Q))) : bool :=
+  let o := ops_of Qops (fun q => q) ops in
+  let cs1 := coords_of Qops F (g_run Qops F (g_initiate Qops F z0) o) in
+  let cs2 := sf_run Qops F (sf_initiate Qops F z0) o in
+  Nat.eqb (length cs1) (length cs2) && forallb (fun p => coord_eqb (fst p) (snd p)) (combine cs1 cs2).
+
+(* one step / one distance evaluated ON A GIVEN STATE (the implementation's own previous state, passed as exact
+   rationals): the sharp, rounding-level part of the correspondence *)
+Definition q_state (m : list Q) (P : list (list Q)) : kstate Qops := Build_kstate Qops m P.
+
+Definition q_step_on (F : kfilter Qops) (m : list Q) (P : list (list Q)) (op : option (list Q))
+  : list (Z * Z) * list (list (Z * Z)) :=
+  let st := g_step Qops F (q_state m P)
+                   (match op with None => @Predict Qops | Some z => @Update Qops z end) in
+  (map qzz (mean st), map (map qzz) (cov st)).
+
+Definition q_dist_on (F : kfilter Qops) (m : list Q) (P : list (list Q)) (z : list Q) : Z * Z :=
+  qzz (g_distance_diag Qops F (q_state m P) z).
+
+Definition f_dist_on (F : kfilter Fops) (m : list Q) (P : list (list Q)) (z : list Q) : list (Z * Z) :=
+  let st : kstate Fops := Build_kstate Fops (map fq m) (map (map fq) P) in
+  [f2zz (g_distance Fops F PrimFloat.sqrt st (map fq z)); f2zz (g_distance_diag Fops F st (map fq z))].
